@@ -64,9 +64,21 @@ theorem lockStep_spec (srv : String) (owner : Option Token) (a : Act) (req : Opt
          simp_all [issuable, lockStep, lockStepWith, Gen.LockFsm.table, relOf, interpSt, interpRep, lockSpec])
     | simp_all [issuable, lockStep, lockStepWith, Gen.LockFsm.table, relOf, interpSt, interpRep, lockSpec]
 
-theorem lockStep_force_unlocked (srv : String) (req : Option Token) :
-    lockStep srv none .forceRelease req = .error .unboundLocalError := by
-  cases req <;> simp [lockStep, lockStepWith, Gen.LockFsm.table, relOf]
+/-- the pinned tree: FORCE_RELEASE of an unlocked object lets `UnboundLocalError` escape -/
+def ForceUnlockedCrashes : Prop :=
+  ∀ (srv : String) (req : Option Token), lockStep srv none .forceRelease req = .error .unboundLocalError
+
+/-- a repaired tree: FORCE_RELEASE of an unlocked object answers `None` and leaves it unlocked -/
+def ForceUnlockedAnswers : Prop :=
+  ∀ (srv : String) (req : Option Token), lockStep srv none .forceRelease req = .ok (none, none)
+
+/-- whichever of the two the generated table says (the proof script tries both; the *statement* is the same for
+both trees, so everything below stays valid when the defect is repaired) -/
+theorem force_unlocked_dichotomy : ForceUnlockedCrashes ∨ ForceUnlockedAnswers := by
+  first
+    | (left; intro srv req; cases req <;> simp [lockStep, lockStepWith, Gen.LockFsm.table, relOf]; done)
+    | (right; intro srv req
+       cases req <;> simp [lockStep, lockStepWith, Gen.LockFsm.table, relOf, interpSt, interpRep]; done)
 
 theorem guardStep_spec (owner req : Option Token) :
     guardStep owner req = if dispatchGuard owner req then .exec else .refused := by
@@ -96,11 +108,19 @@ theorem lockRequest_ok {s : Sys} {a : Act} {req : Option Token} (h : s.dead = no
   rw [h]
   simp only [lockStep_spec s.srv s.owner a req hi hf]
 
-theorem lockRequest_force_unlocked {s : Sys} {req : Option Token} (h : s.dead = none) (ho : s.owner = none) :
+theorem lockRequest_force_unlocked {s : Sys} {req : Option Token} (hc : ForceUnlockedCrashes)
+    (h : s.dead = none) (ho : s.owner = none) :
     lockRequest s .forceRelease req = ({ s with dead := some .unboundLocalError }, none) := by
   unfold lockRequest
   rw [h, ho]
-  simp only [lockStep_force_unlocked]
+  simp only [hc s.srv req]
+
+theorem lockRequest_force_unlocked_fixed {s : Sys} {req : Option Token} (ha : ForceUnlockedAnswers)
+    (h : s.dead = none) (ho : s.owner = none) :
+    lockRequest s .forceRelease req = ({ s with owner := none }, some none) := by
+  unfold lockRequest
+  rw [h, ho]
+  simp only [ha s.srv req]
 
 /-- a lock request touches nothing but `owner` and `dead` -/
 theorem lockRequest_frame (s : Sys) (a : Act) (req : Option Token) :
@@ -221,12 +241,19 @@ theorem proxyForce_locked {s : Sys} {p : Nat} {px : Proxy} {o : Token}
   have hreq := lockRequest_ok (s := s) (a := .forceRelease) (req := px.tok) h (by simp [issuable]) (by simp [ho])
   simp only [hreq, lockSpec, ↓reduceIte]
 
-theorem proxyForce_unlocked {s : Sys} {p : Nat} {px : Proxy}
+theorem proxyForce_unlocked {s : Sys} {p : Nat} {px : Proxy} (hc : ForceUnlockedCrashes)
     (hp : s.proxies[p]? = some px) (h : s.dead = none) (ho : s.owner = none) :
     proxyForceUnlock s p = ({ s with dead := some .unboundLocalError }, .hang) := by
   unfold proxyForceUnlock
   rw [hp]
-  simp only [lockRequest_force_unlocked h ho]
+  simp only [lockRequest_force_unlocked hc h ho]
+
+theorem proxyForce_unlocked_fixed {s : Sys} {p : Nat} {px : Proxy} (ha : ForceUnlockedAnswers)
+    (hp : s.proxies[p]? = some px) (h : s.dead = none) (ho : s.owner = none) :
+    proxyForceUnlock s p = (setProxyTok { s with owner := none } p px none, .unit) := by
+  unfold proxyForceUnlock
+  rw [hp]
+  simp only [lockRequest_force_unlocked_fixed ha h ho, ↓reduceIte]
 
 theorem proxyForce_dead {s : Sys} {p : Nat} {px : Proxy}
     (hp : s.proxies[p]? = some px) (h : s.dead ≠ none) :
@@ -573,7 +600,10 @@ theorem owner_force (s : Sys) (p : Nat) :
     | some e => left; rw [proxyForce_dead hp (by simp [hd])]
     | none =>
       cases ho : s.owner with
-      | none => left; rw [proxyForce_unlocked hp hd ho]; simp [ho]
+      | none =>
+        rcases force_unlocked_dichotomy with hc | ha
+        · left; rw [proxyForce_unlocked hc hp hd ho]; simp [ho]
+        · right; rw [proxyForce_unlocked_fixed ha hp hd ho]; simp [setProxyTok]
       | some o => right; rw [proxyForce_locked hp hd ho]; simp [setProxyTok]
 
 theorem owner_isLocked (s : Sys) (p : Nat) : (step s (.isLocked p)).1.owner = s.owner := by
@@ -642,6 +672,17 @@ theorem step_total_partial {s : Sys} {op : Op} (halive : s.dead = none)
     | some px =>
       rw [proxyCall_eq hp, callRequest_spec _ halive]
       cases dispatchGuard s.owner (if nb then px.nbTok else px.tok) <;> simp [halive]
+
+/-- with the one cell repaired, *every* step of a live object is answered and leaves it serving -/
+theorem step_total_fixed {s : Sys} {op : Op} (ha : ForceUnlockedAnswers) (halive : s.dead = none) :
+    (step s op).1.dead = none ∧ (step s op).2 ≠ .hang := by
+  by_cases hne : (∃ p, op = .forceUnlock p) ∧ s.owner = none
+  · obtain ⟨⟨p, rfl⟩, ho⟩ := hne
+    simp only [step]
+    cases hp : s.proxies[p]? with
+    | none => simp [proxyForceUnlock, hp, halive]
+    | some px => rw [proxyForce_unlocked_fixed ha hp halive ho]; simp [setProxyTok, halive]
+  · exact step_total_partial halive hne
 
 theorem no_hang_aux (ops : List Op) : ∀ s : Sys, s.dead = none →
     (∀ e ∈ trace s ops, ¬ ((∃ p, e.2.1 = .forceUnlock p) ∧ e.1.owner = none)) →
